@@ -54,13 +54,22 @@ theorem propertyNames_spec (rec : J → J → Bool) (c : J) (kvs : List (String 
     checkObject rec (.obj [("propertyNames", c)]) kvs = kvs.all fun kv => rec c (.str kv.1) := by
   simp [checkObject, J.get, List.lookup]
 
+/-- `dependentRequired`: present member ⇒ the members it names are present; an unknown word under draft-07 -/
+theorem dependentRequired_spec (k m : String) (kvs : List (String × J)) :
+    checkDependentRequired .d2020 (.obj [("dependentRequired", .obj [(k, .arr [.str m])])]) kvs =
+      ((kvs.lookup k).isNone || (kvs.lookup m).isSome) ∧
+    checkDependentRequired .d7 (.obj [("dependentRequired", .obj [(k, .arr [.str m])])]) kvs = true := by
+  constructor
+  · cases h : kvs.lookup k <;> simp [checkDependentRequired, J.get, List.lookup, h]
+  · simp [checkDependentRequired]
+
 /-- a keyword the vocabulary does not know is ignored: the verdict of a node depends on the schema object only
     through the members it looks up -/
 def keywords : List String :=
   ["$ref", "type", "enum", "const", "minimum", "maximum", "exclusiveMinimum", "exclusiveMaximum", "minLength", "maxLength",
    "pattern", "minItems", "maxItems", "prefixItems", "items", "additionalItems", "minProperties", "maxProperties", "required",
    "properties", "additionalProperties", "allOf", "anyOf", "oneOf", "not", "contains", "minContains", "maxContains",
-   "propertyNames", "if", "then", "else"]
+   "propertyNames", "if", "then", "else", "patternProperties", "dependentRequired"]
 
 theorem checkKeywords_congr (d : Draft) (rec : J → J → Bool) (s s' v : J)
     (h : ∀ k ∈ keywords, s.get k = s'.get k) : checkKeywords d rec s v = checkKeywords d rec s' v := by
@@ -78,9 +87,10 @@ theorem checkKeywords_congr (d : Draft) (rec : J → J → Bool) (s s' v : J)
     rw [g "minItems" (by decide), g "maxItems" (by decide), g "prefixItems" (by decide), g "items" (by decide), g "additionalItems" (by decide),
       g "contains" (by decide), g "minContains" (by decide), g "maxContains" (by decide)]
   | obj kvs =>
-    simp only [checkObject]
+    simp only [checkObject, checkDependentRequired]
     rw [g "minProperties" (by decide), g "maxProperties" (by decide), g "required" (by decide), g "properties" (by decide),
-      g "additionalProperties" (by decide), g "propertyNames" (by decide)]
+      g "additionalProperties" (by decide), g "propertyNames" (by decide), g "patternProperties" (by decide),
+      g "dependentRequired" (by decide)]
   | null => rfl
   | bool b => rfl
   | num n => rfl
@@ -126,7 +136,7 @@ theorem ref_unfold (d : Draft) (root : J) (rec : J → J → Bool) (r : String) 
     (hres : resolveRef root r = some target) :
     checkNode d root rec (.obj [("$ref", .str r)]) v = rec target v := by
   cases d <;> simp [checkNode, checkRef, J.get, List.lookup, hres, checkKeywords, checkType, checkEnumConst, checkBounds, boundOk,
-    checkCombinators] <;> cases v <;> simp [checkString, checkArray, checkObject, tupleSchemas, restSchema, J.get, List.lookup, natOf]
+    checkCombinators] <;> cases v <;> simp [checkString, checkArray, checkObject, checkDependentRequired, tupleSchemas, restSchema, J.get, List.lookup, natOf]
 
 theorem ref_siblings_ignored_draft07 (root : J) (rec : J → J → Bool) (r : String) (target v : J) (siblings : List (String × J))
     (hres : resolveRef root r = some target) :
